@@ -332,8 +332,14 @@ impl<'a> Gen3<'a> {
 }
 
 pub fn generate(prop: &str, seed: u64) -> W3Scn {
-    let p = profile3(prop);
+    let mut p = profile3(prop);
     let mut r = SimRng::new(seed ^ 0x5733_5733);
+    if prop == "C14" && r.chance(0.2) {
+        // the shared clock under oversized steps (batch > step size): intra-step stamps run into the next step
+        p.overflow = true;
+        p.always_steer = true;
+        p.max_steps = 12;
+    }
     let market = p.force_market || r.chance(p.market_share);
     let assets = if market {
         if p.force_market {
